@@ -3,12 +3,26 @@ from mirlib import *
 from r_hash import name_has, name_ends, calls_of
 
 
+_COMPLEMENT = {"Eq": "Ne", "Ne": "Eq", "Lt": "Ge", "Ge": "Lt", "Le": "Gt", "Gt": "Le"}
+_MIRROR = {"Eq": "Eq", "Ne": "Ne", "Lt": "Gt", "Gt": "Lt", "Le": "Ge", "Ge": "Le"}
+
+
 def has_guard(gs, pat, truth, b=None):
-    for c, tr in gs:
-        if tr == truth:
-            m = unify(pat, c, b)
-            if m is not None:
-                return m
+    """the guards contain `pat` with the given truth -- or, for a comparison pattern with a boolean truth, any equivalent
+    spelling of the same fact: the complementary operator with the opposite truth (x == 0 true is x != 0 false), and the
+    mirrored operand order"""
+    pats = [(pat, truth)]
+    if isinstance(pat, tuple) and len(pat) == 4 and pat[0] == "bin" and pat[1] in _COMPLEMENT and isinstance(truth, bool):
+        op, a_, b_ = pat[1], pat[2], pat[3]
+        pats.append((("bin", _COMPLEMENT[op], a_, b_), not truth))
+        pats.append((("bin", _MIRROR[op], b_, a_), truth))
+        pats.append((("bin", _COMPLEMENT[_MIRROR[op]], b_, a_), not truth))
+    for p_, t_ in pats:
+        for c, tr in gs:
+            if tr is t_ or (not isinstance(t_, bool) and tr == t_):
+                m = unify(p_, c, b)
+                if m is not None:
+                    return m
     return None
 
 
